@@ -7,6 +7,8 @@ import (
 	"context"
 	"encoding/base64"
 	"fmt"
+	spb "google.golang.org/genproto/googleapis/rpc/status"
+	"google.golang.org/protobuf/types/known/anypb"
 	"io"
 	"mime"
 	"net/http"
@@ -34,6 +36,8 @@ type HdrPair struct {
 
 type c11Case struct {
 	Carrier  string // http | httpmux
+	NoLength bool   `json:",omitempty"` // the request arrives without a declared length (chunked upload, HTTP/2 without content-length)
+	Detail   bool   `json:",omitempty"` // the handler's error status carries a detail (an Any of a type the server does not know)
 	Renderer bool   `json:",omitempty"` // the server is configured with a custom ErrorRenderer (errors in band: always 200); it is application code too
 	Base     string `json:",omitempty"` // base path the server is configured with ("" = "/"): only paths under it are registered
 	Method   string
@@ -83,6 +87,9 @@ func (c *c11Case) service(r *c11Run) *Service {
 			r.gotReq = in
 			r.mu.Unlock()
 			if c.ErrCode != 0 {
+				if c.Detail {
+					return nil, status.ErrorProto(&spb.Status{Code: int32(c.ErrCode), Message: "app error", Details: []*anypb.Any{{TypeUrl: "type.googleapis.com/unknown.Type", Value: []byte{1, 2, 3}}}})
+				}
 				return nil, status.Error(codes.Code(c.ErrCode), "app error")
 			}
 			return &pb.Message{Payload: in.Payload, Count: in.Count + 1, Code: in.Code, Headers: in.Headers}, nil
@@ -191,6 +198,11 @@ func (c *c11Case) exec(ctValues []string, body []byte) *c11Reply {
 	}
 	car := newHTTPHandlerBase(c.Carrier, c.Base, newServiceDesc(), c.service(r), hopts...)
 	req := httptest.NewRequest(c.Method, "http://verif.test"+c.Path, bytes.NewReader(body))
+	if c.NoLength {
+		req.Body = io.NopCloser(bytes.NewReader(body))
+		req.ContentLength = -1
+		req.TransferEncoding = []string{"chunked"}
+	}
 	req.Header.Del("Content-Type")
 	for _, v := range ctValues {
 		req.Header.Add("Content-Type", v)
@@ -563,6 +575,8 @@ func genC11(t *rapid.T) c11Case {
 		}
 	}
 	c.Renderer = rapid.IntRange(0, 3).Draw(t, "renderer") == 0
+	c.NoLength = rapid.IntRange(0, 3).Draw(t, "nolength") == 0
+	c.Detail = rapid.Bool().Draw(t, "detail")
 	c.Msg = genMsg(t, "msg", 300)
 	c.Msg.Anys, c.Msg.Unknown = nil, nil // JSON cannot carry unresolvable Any / unknown fields
 	for k := range c.Msg.Hdr {
@@ -601,7 +615,7 @@ func init() { registerReplay("C11", propC11) }
 
 const c11Rule = "rapid-generated HTTP requests against httpgrpc.Server and HandleServices via httptest: method (POST/GET/HEAD/PUT/DELETE/OPTIONS/PATCH/case variants/custom tokens) x path (each registered kind, unregistered, near misses) x Content-Type grammar (known types, case variants, parameters, malformed parameters, unknown, empty, absent, duplicated) x header sets (valid/invalid base64 in -bin headers, good/bad GRPC-Timeout) x body (protobuf, protojson, frame sequences, frame sequences truncated at/inside a frame incl. right after a size preface, arbitrary bytes, hostile prefixes); " +
 	"oracle = gate model: handler entered <=1 times and only if POST + supported media type (mime.ParseMediaType) + all -bin headers decode, otherwise 405/415/400/404 each only if its condition is violated; undecodable unary body => X-GRPC-Status 3 without application code; JSON twin of a protobuf request => equal request, response, status; stream replies parse (reference decoder) as frames + exactly one trailer, nothing after; a request stream cut inside a frame gives the handler its complete messages then a non-EOF error (non-OK trailer when the handler returns it), one cut on a boundary gives EOF; never a panic; " +
-	"also generated since the seeded rounds: servers mounted under a base path (paths outside it and near misses are unknown), a custom ErrorRenderer (never invoked for requests the library must refuse), the per-method HTTP server form; " +
+	"also generated since the seeded rounds: servers mounted under a base path (paths outside it and near misses are unknown), a custom ErrorRenderer (never invoked for requests the library must refuse), requests without a declared length, error statuses carrying a detail of a type unknown to the server, the per-method HTTP server form; " +
 	"non-trivial = >=1 gate violated, or arbitrary/JSON body, or a frame body to a unary method; distinct by case hash"
 
 func TestC11(t *testing.T) {
